@@ -12,7 +12,7 @@ meta={
  "property_title": prop,
  "needs_to_manifest": needs,
  "files": {"patch": "patch.diff", "demonstration": f"seeded_{ID}.rs (integration test for rust/altrios-core/tests/)", "author_notes": "notes.md"},
- "confirmed_here": "tools/confirm_seeded.sh: applied in a scratch worktree outside /repo and /verif: `cargo test --workspace --no-fail-fast --offline` -> 102 passed with the change; demonstration test fails with the change and passes without it",
+ "confirmed_here": "tools/confirm_seeded.sh / confirm_wt.sh: applied in a scratch worktree outside /repo and /verif: `cargo test --workspace --no-fail-fast --offline` -> 102 passed with the change; demonstration test fails with the change and passes without it",
  "checks_run": f"git -C /repo apply patch.diff; ./check <id> quick; git -C /repo checkout -- .",
  "detected_by": [d for d in detected.split(';') if d],
  "base_commit": subprocess.run(['git','-C','/repo','rev-parse','--short','HEAD'],capture_output=True,text=True).stdout.strip(),
